@@ -70,6 +70,11 @@ FirstPoll(m) == /\ m \in polls /\ phase[host[m]] = "started" /\ Rank(phase[m]) >
                 /\ host[m] \notin stopped
                 /\ polled' = polled \cup {m}
                 /\ UNCHANGED <<cfgvars, phase, written, cbdone, state, stopped, joined, shut, inflight, stopAt>>
+(* a read function called by the poll thread: the first round of reads comes after ALL configured values of the  *)
+(* modules served by that thread have been written (not only the module's own)                                  *)
+PolledRead(m) == /\ phase[host[m]] = "started"
+                 /\ \A n \in writes : host[n] = host[m] => n \in written
+                 /\ UNCHANGED vars
 Owners == {host[m] : m \in polls \cup writes}                 \* the modules that run a poll thread
 StartedCb(m) == /\ m \in Owners /\ m \notin cbdone /\ phase[m] = "started"
                 /\ \A n \in writes : host[n] = m => n \in written   \* the first round starts with the configured writes
